@@ -7,11 +7,11 @@ LEVEL = "model_checking"
 MANIFEST = {
     "engine": "tlc GcModel states + vhgc c22",
     "technique": "TLC enumerates every repository state reachable by a bounded history of porcelain operations over the abstract GcModel spec and computes Live (closure of references, HEAD and index, cut at shallow roots) and the keep-set of every Prune / RepackObjects option combination; go-git replays the history, runs the collection, and every object the spec keeps is read back (fresh storage, the collecting storage, decoded children, git cat-file / fsck on a sample)",
-    "text": "Exhaustive over all distinct repository states reachable in <= 2 operations (quick: 1; thorough additionally a seeded sample of 5000 of the states at depth 3, all of which TLC enumerates and checks against the model invariants) from 4 initial repositories over 17 operation kinds (stage-only add, gitlink, commit / merge commit, soft reset, detached / branch checkout, annotated and lightweight tags on any object, ref set / delete / pack-refs, shallow cut, pack-all plain / promisor with withheld blobs, unpack, and GC itself), plus simulated histories of length 4-6; 3 Prune x 6 RepackObjects option combinations per state.",
+    "text": "Exhaustive over all distinct repository states reachable in <= 2 operations (quick: 1; thorough additionally a seeded sample of 5000 of the states at depth 3, all of which TLC enumerates and checks against the model invariants) from 5 initial repositories over 19 operation kinds (stage-only add, conflict stages 1/2/3 on an unmerged path and their resolution, gitlink, commit / merge commit, soft reset, detached / branch checkout, annotated and lightweight tags on any object, ref set / delete / pack-refs, shallow cut, pack-all plain / promisor with withheld blobs, unpack, and GC itself), plus simulated histories of length 4-6; 3 Prune x 6 RepackObjects option combinations per state.",
     "note": "Small universe (3 blobs, 2 paths + gitlink, <= 5 commits, <= 3 annotated tags, 2 branches, 2 tag refs). Liveness is what the property names: references, HEAD, index; reflogs, linked worktrees and alternates are not modelled. git's own prune/repack is the second witness for Live on a sample (spec != git => SPEC-ERROR). Age limits are the two extremes (before every object / after every object).",
 }
 INVS = "TypeOK Connected IndexPresent GcSound LastGcAdmissible ViaTotal EmitState"
-CFG = """CONSTANTS Blobs <- MCBlobs Heads <- MCHeads TagRefs <- MCTagRefs CIds <- MCCIds GIds <- MCGIds Inits <- MCInits GcOps <- MCGcOps
+CFG = """CONSTANTS Blobs <- MCBlobs Heads <- MCHeads TagRefs <- MCTagRefs CIds <- MCCIds GIds <- MCGIds Inits <- MCInits GcOps <- MCGcOps ConflictShapes <- MCConflictShapes
  WithPromisor = TRUE WithLink = TRUE WithMidGc = TRUE MaxOps = %d Emit = TRUE
 INIT Init
 NEXT Next
